@@ -238,7 +238,26 @@ def scdNestDist (m : Int) (n : Int) (len : Int) : Int := (m - n)
 def scdNestDenom (len : Int) : Int := len
 def scdNestExp : Rat := (1 : Rat) / 2
 
+/-- translated from localcider/backend/sequence.py:Sequence.setPhosPhoSites (loop at line 1652) -/
+def setSiteSrc (site : Int) (len_seq : Int) (res_in_set : Bool) (already : Bool) : Except Unit (Option Int) :=
+  let idx : Int := (site - (1 : Int))
+  if ((idx ≥ len_seq) ∨ (idx < (0 : Int))) then
+    .ok none
+  else
+    if (res_in_set = false) then
+      .ok none
+    else
+      if (already = true) then
+        .ok none
+      else
+        .ok (some idx)
+
+def setSiteSrcLetters : List Char := ['S', 'T', 'Y']
+
+/-- translated from localcider/backend/sequence.py:Sequence.get_STY_residues (line 1827) -/
+def stySrcLetters : List Char := ['Y', 'S', 'T']
+
 /-- which decision functions could be translated on this run -/
-def translatedDecisions : List String := ["phasePlotRegion", "kappaDecision", "sigmaDecision", "checkWindow", "verifyPH", "insideRelevant", "fplusSrc", "fminusSrc", "fcrSrc", "ncprSrc", "ferSrc", "mncSrc", "deltaSrc", "deltaTermSrc", "flanksNCPR", "flanksFCR", "flanksSigma", "flanksHydro", "flanksHydro2", "flanksDensity", "omegaCharSrc", "omegaSeqCharSrc", "kappaX2CharSrc", "kappaX1CharSrc", "scdNest"]
+def translatedDecisions : List String := ["phasePlotRegion", "kappaDecision", "sigmaDecision", "checkWindow", "verifyPH", "insideRelevant", "fplusSrc", "fminusSrc", "fcrSrc", "ncprSrc", "ferSrc", "mncSrc", "deltaSrc", "deltaTermSrc", "flanksNCPR", "flanksFCR", "flanksSigma", "flanksHydro", "flanksHydro2", "flanksDensity", "omegaCharSrc", "omegaSeqCharSrc", "kappaX2CharSrc", "kappaX1CharSrc", "scdNest", "setSiteSrc", "stySrc"]
 
 end Cider.Gen
